@@ -61,6 +61,10 @@ def decorator_effect(prog, deco_qual) -> DecoratorEffect:
                 continue  # statically dead block: nothing in it is published
             if isinstance(t, ast.UnaryOp) and isinstance(t.op, ast.Not) and isinstance(t.operand, ast.Compare) and len(t.operand.ops) == 1 and isinstance(t.operand.ops[0], ast.Is):
                 t = ast.Compare(left=t.operand.left, ops=[ast.IsNot()], comparators=t.operand.comparators)
+            if isinstance(t, ast.UnaryOp) and isinstance(t.op, ast.Not) and isinstance(t.operand, ast.Compare) and len(t.operand.ops) == 1 and isinstance(t.operand.ops[0], ast.IsNot):
+                t = ast.Compare(left=t.operand.left, ops=[ast.Is()], comparators=t.operand.comparators)
+            if isinstance(t, ast.Compare) and len(t.ops) == 1 and isinstance(t.ops[0], ast.Is) and isinstance(t.left, ast.Name) and isinstance(t.comparators[0], ast.Constant) and t.comparators[0].value is None and not st.orelse:
+                continue  # runs only when no signature could be computed: for an inspectable class nothing in it is published
             guard_ok = (
                 isinstance(t, ast.Compare)
                 and len(t.ops) == 1
